@@ -347,6 +347,6 @@ UNITS = [
          doc="same object changed in place / ==-equal other JSON value / sign-verify around in-place edits: bytes follow the value"),
     Unit("codepoints", check_codepoints, enumerate=enum_codepoints, exhaustive=True,
          doc="every Unicode code point (incl. lone surrogates) as element, as key and inside a string"),
-    Unit("config", check_config, strategy=_corpus_and_config, quick=24, thorough=400,
+    Unit("config", check_config, shrink=False, strategy=_corpus_and_config, quick=24, thorough=400,
          doc="child interpreters under generated hash seed/locale/TZ/cwd/UTF-8 mode"),
 ]
